@@ -263,13 +263,13 @@ def seeded_pairs(net, rng, k):
     return out
 
 
-def pairs_through(net, uid, rng, k):
-    """k seeded transceiver pairs whose route crosses the element `uid` away from its ends"""
+def pairs_through(netname, uid, rng, k):
+    """k seeded transceiver pairs of a loaded network whose route crosses the element `uid` away from its ends"""
     import gnpy.topology.request as rq
+    net, _, base_req, _ = network(netname)
     out = []
     for a, b in seeded_pairs(net, rng, 10 ** 6):
-        r = make_request([v for v in _LOADED.values() if v and v[0] is net][0][2], a, b)
-        path = rq.compute_constrained_path(net, r)
+        path = rq.compute_constrained_path(net, make_request(base_req, a, b))
         if any(el.uid == uid for el in path[2:-2]):
             out.append((a, b))
         if len(out) == k:
@@ -550,7 +550,7 @@ def scenarios(tier, seed):
         if net is None:
             return []
         return [record(f'mesh-mixed:express-through-add-drop-shelf:{s}->{d}', 'mesh-mixed', s, d, None)
-                for s, d in pairs_through(net[0], 'roadm Lannion_CAS', rng, 6 if thorough else 2)]
+                for s, d in pairs_through('mesh-mixed', 'roadm Lannion_CAS', rng, 6 if thorough else 2)]
     jobs.append(through_lannion)
     with_spectrum('seeded-mixed', 'mesh-mixed', lambda: carriers(seeded_carriers(rng, -1_800_000, 2_000_000, 24)),
                   permute=thorough)
